@@ -108,6 +108,22 @@ func (in *Instance) ownershipOf(fd *ast.FuncDecl, allowed map[string]bool) []str
 		}
 		return true
 	})
+	// ownedVals: local struct/array variables that hold references inside and are
+	// only ever assigned fresh values (declared without a value, composite
+	// literals): their address may be handed to a helper that fills them. A
+	// shallow copy of an input (dst := src) shares the input's references.
+	ownedVals := map[types.Object]bool{}
+	ast.Inspect(fd, func(n ast.Node) bool {
+		if id, ok := n.(*ast.Ident); ok {
+			if o, ok := info.Defs[id].(*types.Var); ok && o != nil && !params[o] && !o.IsField() && holdsRefs(o.Type()) {
+				switch o.Type().Underlying().(type) {
+				case *types.Struct, *types.Array:
+					ownedVals[o] = true
+				}
+			}
+		}
+		return true
+	})
 	// elemOwned: the elements of an owned container of containers are owned too
 	// while only fresh values are stored in it
 	elemOwned := map[types.Object]bool{}
@@ -153,6 +169,13 @@ func (in *Instance) ownershipOf(fd *ast.FuncDecl, allowed map[string]bool) []str
 			if x.Op == token.AND {
 				if _, ok := ast.Unparen(x.X).(*ast.CompositeLit); ok {
 					return true
+				}
+				// the address of a local value variable that never held anything but fresh values
+				if o := objOf(x.X); o != nil && !params[o] {
+					if t := info.TypeOf(x.X); t != nil && !holdsRefs(t) {
+						return true
+					}
+					return ownedVals[o]
 				}
 			}
 			return false
@@ -212,6 +235,14 @@ func (in *Instance) ownershipOf(fd *ast.FuncDecl, allowed map[string]bool) []str
 						if id, ok := l.(*ast.Ident); ok && !fresh(s.Rhs[i]) {
 							drop(id)
 						}
+						if id, ok := l.(*ast.Ident); ok {
+							if o := objOf(id); o != nil && ownedVals[o] {
+								if _, lit := ast.Unparen(s.Rhs[i]).(*ast.CompositeLit); !lit {
+									delete(ownedVals, o)
+									changed = true
+								}
+							}
+						}
 						if ix, ok := l.(*ast.IndexExpr); ok && !fresh(s.Rhs[i]) {
 							if o := objOf(ix.X); o != nil && elemOwned[o] {
 								delete(elemOwned, o)
@@ -237,6 +268,10 @@ func (in *Instance) ownershipOf(fd *ast.FuncDecl, allowed map[string]bool) []str
 					for _, l := range s.Lhs {
 						if id, ok := l.(*ast.Ident); ok {
 							drop(id)
+							if o := objOf(id); o != nil && ownedVals[o] {
+								delete(ownedVals, o)
+								changed = true
+							}
 						}
 					}
 				}
@@ -315,6 +350,25 @@ func (in *Instance) ownershipOf(fd *ast.FuncDecl, allowed map[string]bool) []str
 			return true, ""
 		}
 		return false, exprText(e)
+	}
+	// localPointerArg: &x or p for a local (non-parameter) variable: the destination a
+	// helper fills must not share references with an input (the helper's contract
+	// assumes destination and source unrelated)
+	localPointerArg := func(e ast.Expr) bool {
+		e = ast.Unparen(e)
+		if _, ok := info.TypeOf(e).Underlying().(*types.Pointer); !ok {
+			return false
+		}
+		if u, ok := e.(*ast.UnaryExpr); ok && u.Op == token.AND {
+			o := objOf(u.X)
+			return o != nil && !params[o]
+		}
+		if id, ok := e.(*ast.Ident); ok {
+			o := objOf(id)
+			_, isVar := o.(*types.Var)
+			return o != nil && isVar && !params[o]
+		}
+		return false
 	}
 	checkElemWrite := func(lhs ast.Expr) {
 		ix, ok := ast.Unparen(lhs).(*ast.IndexExpr)
@@ -409,7 +463,7 @@ func (in *Instance) ownershipOf(fd *ast.FuncDecl, allowed map[string]bool) []str
 							if sigs := in.pickGuarded(fam.Attrs["o-sig"], args, nil); len(sigs) == 1 {
 								ps, _, _ := sigNames(sigs[0])
 								for i, pn := range ps {
-									if i < len(s.Args) && strings.Contains(" "+strings.Join(mut, " ")+" ", " "+pn+" ") && isRefContainer(info.TypeOf(s.Args[i])) {
+									if i < len(s.Args) && strings.Contains(" "+strings.Join(mut, " ")+" ", " "+pn+" ") && (isRefContainer(info.TypeOf(s.Args[i])) || localPointerArg(s.Args[i])) {
 										if ok, what := writable(s.Args[i]); !ok {
 											report(s.Pos(), "%s, which this function does not own, is passed to a helper that modifies it", what)
 										}
@@ -452,4 +506,26 @@ func exprText(e ast.Expr) string {
 		return exprText(x.Fun) + "(...)"
 	}
 	return "an expression"
+}
+
+// holdsRefs: values of the type contain references to memory (directly or in
+// fields / elements). Opaque prelude types count as holding references.
+func holdsRefs(t types.Type) bool {
+	switch u := t.Underlying().(type) {
+	case *types.Basic:
+		return u.Kind() == types.UnsafePointer
+	case *types.Struct:
+		for i := 0; i < u.NumFields(); i++ {
+			if holdsRefs(u.Field(i).Type()) {
+				return true
+			}
+		}
+		return false
+	case *types.Array:
+		if u.Len() == 0 {
+			return true // the marker field of an opaque type
+		}
+		return holdsRefs(u.Elem())
+	}
+	return true
 }
